@@ -3,6 +3,7 @@ import PharmpyProofs.C06.EffLemmas
 import PharmpyProofs.C06.KindLemmas
 import PharmpyProofs.C06.NamesLemmas
 import PharmpyModel.Generated.Containers
+import PharmpyModel.C06.Cache
 import PharmpyModel.Generated.EqHash
 import PharmpyModel.Generated.Effects
 /-
@@ -360,5 +361,53 @@ theorem all_container_ops_checked :
 example : 7 ≤ (Generated.containerOps.filter (fun op => op.policy == .checked)).length := by decide +kernel
 
 end NamesSection
+
+/-! ## D. cached hashes do not leak into derived objects -/
+
+section CacheSection
+open Cache
+
+theorem cache_step_ok (H : Content → Nat) (op : Op) (hop : op.cloneFree = true) (o : Obj) (ho : CacheOK H o) :
+    CacheOK H (step H op o) := by
+  cases op with
+  | hashIt =>
+    rcases ho with h | h
+    · right; simp [step, h]
+    · right; simp [step, h]
+  | replaceFresh k v => left; rfl
+  | replaceClone k v => simp [Op.cloneFree] at hop
+  | copyCtor => exact ho
+
+/-- Along every sequence of hashing, cache-free derivations and identical-content copies — however often
+    and whenever the intermediate objects were hashed — a cached hash is the hash of the current content. -/
+theorem cache_ok_run (H : Content → Nat) (ops : List Op) (hops : ∀ op ∈ ops, op.cloneFree = true)
+    (o : Obj) (ho : CacheOK H o) : CacheOK H (run H ops o) := by
+  induction ops generalizing o with
+  | nil => exact ho
+  | cons op ops ih =>
+    exact ih (fun op' h' => hops op' (by simp [h'])) (step H op o) (cache_step_ok H op (hops op (by simp)) o ho)
+
+/-- Hence `hash` of a derived object is a function of its content only: objects with equal content reached
+    along different histories (one source hashed before, the other never) hash equal. -/
+theorem derived_hash_is_content_hash (H : Content → Nat) (ops₁ ops₂ : List Op)
+    (h₁ : ∀ op ∈ ops₁, op.cloneFree = true) (h₂ : ∀ op ∈ ops₂, op.cloneFree = true)
+    (o₁ o₂ : Obj) (ho₁ : CacheOK H o₁) (ho₂ : CacheOK H o₂)
+    (hc : (run H ops₁ o₁).content = (run H ops₂ o₂).content) :
+    hashOf H (run H ops₁ o₁) = hashOf H (run H ops₂ o₂) := by
+  have e : ∀ o, CacheOK H o → hashOf H o = H o.content := by
+    intro o ho
+    rcases ho with h | h <;> simp [hashOf, h]
+  rw [e _ (cache_ok_run H ops₁ h₁ o₁ ho₁), e _ (cache_ok_run H ops₂ h₂ o₂ ho₂), hc]
+
+/-- A derivation that starts from a clone carrying the source's cache reports the hash of the OLD content
+    once the source has been hashed; the same derivation from a never-hashed source does not. -/
+theorem replace_clone_witness :
+    let H : Content → Nat := fun c => c.length
+    let o : Obj := ⟨[("Y", "1")], none⟩
+    hashOf H (run H [.hashIt, .replaceClone "Y_2" "2"] o) ≠ H (run H [.hashIt, .replaceClone "Y_2" "2"] o).content ∧
+    hashOf H (run H [.replaceClone "Y_2" "2"] o) = H (run H [.replaceClone "Y_2" "2"] o).content := by
+  decide
+
+end CacheSection
 
 end Pharmpy.C06
